@@ -22,6 +22,14 @@ HEADERS = st.one_of(
     st.builds(lambda fp, t: ref_openpgp.default_headers(fp.hex(), t), st.binary(min_size=20, max_size=20),
               st.integers(0, 2 ** 32 - 1)),
     st.sampled_from([1, 2, 255, 256, 257]).flatmap(lambda n: st.binary(min_size=n, max_size=n)),
+    # hashed areas that say more than GnuPG's default: a signature expiration long past / far ahead / zero, a key expiration,
+    # notation data, a policy URI, critical bits - none of it is the library's business (RFC 4880 5.2.3.x), only bytes to hash
+    st.builds(lambda fp, t, subs: ref_openpgp.rich_headers(fp.hex(), t, subs), st.binary(min_size=20, max_size=20),
+              st.sampled_from([0, 1, 0x5F0BF546, 2 ** 31 - 1, 2 ** 32 - 1]),
+              st.lists(st.one_of(
+                  st.tuples(st.just(3), st.booleans(), st.sampled_from([1, 60, 86400, 0, 2 ** 32 - 1]).map(lambda n: n.to_bytes(4, "big"))),
+                  st.tuples(st.just(9), st.booleans(), st.sampled_from([1, 86400 * 365]).map(lambda n: n.to_bytes(4, "big"))),
+                  st.tuples(st.sampled_from([20, 26, 27, 28, 100]), st.booleans(), st.binary(min_size=1, max_size=40))), min_size=1, max_size=3)),
     # long hashed areas (notation data, policy URLs): the two-octet subpacket length allows up to 65535 octets
     st.sampled_from([261, 262, 300, 1000, 5000, 65535]).flatmap(lambda n: st.binary(min_size=n, max_size=n)),
 )
